@@ -1,7 +1,7 @@
 SPECIFICATION Spec
 CONSTANTS
   IterUniverse <- U_quick
-  MaxSize = 60
+  MaxSize = 200
 INVARIANT Exact
 INVARIANT Faithful
 INVARIANT FirstIsLeast
